@@ -1,6 +1,7 @@
 package otto
 
 import (
+	"regexp"
 	"strconv"
 	"time"
 )
@@ -32,7 +33,8 @@ var (
 		},
 	}
 	prototypeValueRegExp = regExpObject{
-		regularExpression: nil,
+		// RegExp.prototype is itself a RegExp object, matching the empty pattern (ECMA 262 15.10.6).
+		regularExpression: regexp.MustCompile("(?:)"),
 		global:            false,
 		ignoreCase:        false,
 		multiline:         false,
